@@ -210,9 +210,12 @@ def plan(ctx):
         units += [(d, "shared", kind, i, 3) for kind in ("singles", "groups") for i in range(3)]
         sizes["defaulting_schemas_d%d" % d] = len(defaulting_schemas(d, ctx.tier))
         units += [(d, "defaulting", i, 6) for i in range(6)]
+        units += [(d, "edited", i, 4) for i in range(4)]
     return {
         "units": units,
-        "rule": ("DEFAULTING INSTANCES: sibling groups and ordered pairs with an object keyword x every instance "
+        "rule": ("EDITED IN PLACE: all ordered pairs over two values per keyword: a validator is used, then the second "
+                 "keyword is added to the root schema object in place, then the first is deleted; after each edit the "
+                 "same validator reports what a validator for the current schema reports.  DEFAULTING INSTANCES: sibling groups and ordered pairs with an object keyword x every instance "
                  "containing an object, given as collections.defaultdict (answers for keys it is asked about): same "
                  "(keyword, path, schema path) multiset as for the plain dict, and the instance does not grow.  "
                  "SHARED VALIDATOR: every single and sibling group x the pair universe through ONE long-lived validator "
@@ -424,7 +427,59 @@ def defaulting_differs(d, S, x):
     return got != want or plain_again(xd) != x
 
 
+def run_edited(unit, ctx):
+    """The caller owns the schema object: after a validator has been used, a keyword is added to / replaced in /
+    deleted from the ROOT schema object in place; the same validator must then report what a validator built for
+    the schema as it now stands reports (every keyword present is applied, nothing that is gone is)."""
+    d, _, shard, n = unit
+    U = [x for i, x in enumerate(_e1.get_universe(ctx.tier, "pairs-small")) if i % 3 == 0]
+    sg = _e1.get_singles(d, ctx.tier)
+    per = {}
+    for k, v in sg:
+        per.setdefault(k, [])
+        if len(per[k]) < 2:
+            per[k].append(v)
+    red = [(k, v) for k, vs in per.items() for v in vs]
+    pairs = [(a, b) for a in red for b in red if a[0] != b[0]]
+    ev = nt = 0
+    viol, outcomes = [], {}
+    for i in range(shard, len(pairs), n):
+        (k1, v1), (k2, v2) = pairs[i]
+        if not _e1.accepted(d, {k1: v1, k2: v2}):
+            continue
+        for x in U:
+            S = {k1: json.loads(json.dumps(v1))}
+            v = _e1.CLS[d](S)
+            steps = []
+            try:
+                list(v.iter_errors(x))
+                S[k2] = json.loads(json.dumps(v2))                      # keyword added
+                steps.append(("added", json.loads(json.dumps(S))))
+                got1 = sorted((_e1.ident(e) for e in v.iter_errors(x)), key=repr)
+                del S[k1]                                               # keyword deleted
+                steps.append(("deleted", json.loads(json.dumps(S))))
+                got2 = sorted((_e1.ident(e) for e in v.iter_errors(x)), key=repr)
+            except Exception:
+                continue
+            for (what, snap), got in zip(steps, (got1, got2)):
+                ev += 1
+                want = sorted((_e1.ident(e) for e in _e1.CLS[d](snap).iter_errors(x)), key=repr)
+                if want:
+                    nt += 1
+                key = "edited-agrees" if got == want else "EDITED-DISAGREES"
+                outcomes[key] = outcomes.get(key, 0) + 1
+                if got != want:
+                    viol.append({"signature": "C05|root-schema-edited-in-place|keyword-%s" % what, "size": len(str(snap)) + len(str(x)),
+                                 "case": {"draft": d, "schema": {k1: v1}, "instance": x, "edited": [k1, k2, v2]},
+                                 "detail": {"after": what, "reused_validator": got, "validator_for_current_schema": want}})
+                    break
+    return {"evaluations": ev, "nontrivial": nt, "violations": viol, "samples": [], "outcomes": outcomes,
+            "counters": {"edited_in_place_cases": ev}}
+
+
 def run_unit(unit, ctx):
+    if unit[1] == "edited":
+        return run_edited(unit, ctx)
     if unit[1] == "refs":
         return run_refs(unit, ctx)
     if unit[1] == "defaulting":
@@ -481,6 +536,18 @@ def run_unit(unit, ctx):
 
 def replay(case, ctx):
     d, S, x = case["draft"], case["schema"], case["instance"]
+    if case.get("edited"):
+        k1, k2, v2 = case["edited"]
+        S2 = json.loads(json.dumps(S))
+        v = _e1.CLS[d](S2)
+        list(v.iter_errors(x))
+        S2[k2] = v2
+        g1 = sorted((_e1.ident(e) for e in v.iter_errors(x)), key=repr)
+        w1 = sorted((_e1.ident(e) for e in _e1.CLS[d](json.loads(json.dumps(S2))).iter_errors(x)), key=repr)
+        del S2[k1]
+        g2 = sorted((_e1.ident(e) for e in v.iter_errors(x)), key=repr)
+        w2 = sorted((_e1.ident(e) for e in _e1.CLS[d](json.loads(json.dumps(S2))).iter_errors(x)), key=repr)
+        return {"reproduced": g1 != w1 or g2 != w2}
     if case.get("defaulting"):
         return {"reproduced": defaulting_differs(d, S, x)}
     if case.get("shared"):
